@@ -706,7 +706,10 @@ Definition topological_order (inds : list individual) : res (list Z) :=
 Definition remap_id (idmap : list Z) (x : Z) : res Z := if x =? NULL then Ok NULL else get idmap x.
 
 (* 7279: rows are re-added for i = n-1 .. 0 as copy[order[i]]; new_id_map[order[i]] = new id;
-   then the parents column and nodes.individual are rewritten through new_id_map *)
+   then the parents column and nodes.individual are rewritten through new_id_map.  The
+   topological sort of the copy runs BEFORE the individual table is cleared (after "fix:
+   sort_individuals leaves the individual table untouched when it finds a parent cycle"), so the
+   cycle error leaves the tables as they were — which is all an [Err] result says here. *)
 Definition sort_individuals (t : tables) : res tables :=
   if negb (check_refs t && check_inds t) then Err E_BAD_REF else
   let inds := t_inds t in
